@@ -37,8 +37,13 @@ def gen_cfg(rng, profile=None):
     return c
 
 
-def gen_history(rng, nops=None, cfg=None, long_mode=False):
+def gen_history(rng, nops=None, cfg=None, long_mode=False, weights_override=None, many_ties=False, c13=False):
     cfg = cfg if cfg is not None else gen_cfg(rng)
+    if c13:
+        # cross-backend profile: no memory-only admission rules, clock steps never inside the SQLite sweep interval
+        cfg["press_items"] = 0
+        if cfg["max_depth"] > 0:
+            cfg["deliv_age"] = 0
     n = nops if nops is not None else rng.randint(6, 60)
     routes = ROUTES[:rng.choice([1, 2, 2, 3])]
     targets = TARGETS[:rng.choice([1, 1, 2])]
@@ -68,6 +73,10 @@ def gen_history(rng, nops=None, cfg=None, long_mode=False):
             d = rng.choice([SEC, 5 * SEC, 31 * SEC])
         else:
             d = rng.choice([120 * SEC, -MS])
+        if c13 and 0 < d < 10 * MS:
+            d = rng.choice([0, 10 * MS, 11 * MS])
+        if c13 and d < 0:
+            d = 0
         now += max(d, -MS)
 
     def enq_item(blank_ok=True):
@@ -78,7 +87,9 @@ def gen_history(rng, nops=None, cfg=None, long_mode=False):
         r = rng.random()
         if blank_ok and r < 0.06:
             e["id"] = ""
-        if rng.random() < 0.35:
+        if many_ties and rng.random() < 0.6:
+            e["recv"] = BASE + rng.choice([0, SEC, 2 * SEC])
+        elif rng.random() < 0.35:
             e["recv"] = now - rng.choice([0, 0, 1, SEC, 5 * SEC, 61 * SEC, 2 * SEC])
         if rng.random() < 0.2:
             e["next"] = now + rng.choice([0, 1, MS, SEC, 10 * SEC, -SEC])
@@ -132,6 +143,10 @@ def gen_history(rng, nops=None, cfg=None, long_mode=False):
 
     weights = [("enqueue", 24), ("enqueue_batch", 7), ("dequeue", 20), ("lease", 17), ("lease_batch", 6),
                ("manage", 8), ("manage_f", 6), ("list", 4), ("list_dead", 2), ("lookup", 2), ("stats", 2)]
+    if weights_override:
+        weights = list(weights_override)
+    if c13:
+        weights = weights + [("reopen", 1)]
     if long_mode:
         weights = [("enqueue", 50), ("dequeue", 25), ("lease", 18), ("lease_batch", 3), ("manage", 3), ("manage_f", 1)]
     total = sum(w for _, w in weights)
@@ -157,6 +172,8 @@ def gen_history(rng, nops=None, cfg=None, long_mode=False):
             op["route"] = rng.choice(routes) if rng.random() < 0.6 else ""
             op["target"] = rng.choice(targets) if rng.random() < 0.25 else ""
             op["batch"] = rng.choice([1, 1, 1, 2, 3, 5, 0, -1, 100, 101])
+            if c13 and rng.random() < 0.7:
+                op["batch"] = rng.choice([5, 100, 101])
             op["ttl"] = rng.choice(ttl_pool)
             last_ttl = op["ttl"] if op["ttl"] > 0 else 30 * SEC
             deq_ops.append(i)
@@ -233,4 +250,6 @@ def gen_long_history(rng):
     ops.append({"op": "dequeue", "now": now, "route": "", "target": "", "batch": 5, "ttl": SEC})
     ops.append({"op": "lease", "now": now, "kind": "ack", "dur": 0, "reason": "", "lease": {"ref": [k, 0]}})
     ops.append({"op": "stats", "now": now})
+    for o in ops[-9:]:
+        o["snap"] = True        # dense snapshots over the tail, so the monitors can be evaluated on it
     return {"cfg": cfg, "ops": ops, "snap_every": 500}
